@@ -219,6 +219,8 @@ def show(n, depth=0):
         return "%s %s %s" % (show(n["l"], d), n["op"] if n["op"].endswith("=") else n["op"] + "=", show(n["r"], d))
     if k == "return":
         return "return %s" % (show(n["e"], d) if "e" in n else "")
+    if k == "ireturn":
+        return "return' %s" % (show(n["e"], d) if "e" in n else "")
     if k == "break":
         return "break"
     if k == "continue":
@@ -384,7 +386,17 @@ def simple_let_init(defs, i):
     """init expression of `let x = init` when x is a plain (non-destructuring) binding"""
     d = defs.get(i)
     if d and d[0] == "let" and d[2].get("k") == "pbind" and "init" in d[1]:
-        return d[1]["init"]
+        init = d[1]["init"]
+        # look through immutable re-bindings (`let a = b;`, parameters of inlined helpers)
+        for _ in range(6):
+            x = peel(init)
+            if x.get("k") != "local":
+                break
+            d2 = defs.get(x["id"])
+            if not (d2 and d2[0] == "let" and d2[2].get("k") == "pbind" and not d2[2].get("mut") and "init" in d2[1] and "els" not in d2[1]):
+                break
+            init = d2[1]["init"]
+        return init
     return None
 
 
